@@ -214,6 +214,15 @@ func drawC20(rt *rapid.T) C20Scenario {
 			mainT[bp] = bf
 			sc.Commits = append(sc.Commits, Commit{Actor: "base", Set: map[string]*File{bp: bf.clone()}, Msg: fmt.Sprintf("base %d", c)})
 			sc.Evaluations = append(sc.Evaluations, Evaluation{AfterCommit: -1})
+			if g.pick("mergenow", 3) == 0 {
+				// "Update branch": from here on the oracle compares trees read back from the repository
+				sc.Commits = append(sc.Commits, Commit{Actor: "merge", Msg: fmt.Sprintf("merge main %d", c)})
+				o := map[string]string{}
+				for k, v := range origin {
+					o[k] = v
+				}
+				sc.Evaluations = append(sc.Evaluations, Evaluation{AfterCommit: len(sc.Commits) - 1, Fork: fork.clone(), Head: head.clone(), Origin: o})
+			}
 		}
 		cm := Commit{Actor: "feature", Set: map[string]*File{}, Msg: fmt.Sprintf("feature %d", c)}
 		ks := sortedKeys(head)
@@ -407,6 +416,7 @@ func runC20(t *testing.T, sc C20Scenario, record bool) *detsim.Outcome {
 	_, err = repo.Git("checkout", "-q", "-b", repo.branch())
 	must(err)
 	digest := fnv.New64a()
+	merged := false
 	for ci, c := range sc.Commits {
 		if err := repo.Apply(c); err != nil {
 			out.Probes["history_rejected_by_git"]++
@@ -417,6 +427,35 @@ func runC20(t *testing.T, sc C20Scenario, record bool) *detsim.Outcome {
 		if c.Actor == "base" {
 			out.Probes["commit_on_base_branch"]++
 			continue // nothing to judge: the branch under review did not move
+		}
+		if c.Actor == "merge" {
+			merged = true
+			out.Probes["commit_merge"]++
+		}
+		if merged {
+			mb, err := repo.Git("merge-base", "main", "HEAD")
+			must(err)
+			ft, ok1 := repo.ReadTree(strings.TrimSpace(mb))
+			ht, ok2 := repo.ReadTree("HEAD")
+			if !ok1 || !ok2 {
+				out.Probes["merge_result_not_in_model_shape"]++
+				return out
+			}
+			evCopy := *ev
+			evCopy.Fork, evCopy.Head = ft, ht
+			o := map[string]string{}
+			for hp := range ht {
+				if op, ok := ev.Origin[hp]; ok {
+					o[hp] = op
+				} else if _, inBase := ft[hp]; inBase {
+					o[hp] = hp
+				} else {
+					o[hp] = ""
+				}
+			}
+			evCopy.Origin = o
+			ev = &evCopy
+			out.Probes["evaluation_after_merge"]++
 		}
 		reps, _, err := repo.RunPintCI(pint, cfg)
 		out.Sched.Decisions++
